@@ -35,7 +35,7 @@ ASSUMPTIONS = ["scipy.linalg.expm is the reference exponential", "tolerances: 1e
 ENV = {"NUMBA_BOUNDSCHECK": "1"}
 TIMEOUT = {"quick": 1200, "thorough": 7200}
 
-ALL_MODELS = M.NUC_REV + M.NUC_NS + M.CODON + M.PROTEIN + M.DINUC
+ALL_MODELS = M.NUC_REV + M.NUC_NS + M.CODON + M.USERCODON + M.PROTEIN + M.DINUC
 LENGTHS = [0.0, 1e-6, 1e-3, 0.05, 0.3, 1.0, 3.0, 10.0]
 
 
@@ -106,9 +106,14 @@ def decide_lf(res, prob, rng):
         return
     sm = lf.model
     states = [str(s) for s in sm.get_alphabet()]
-    mp = lf.get_motif_probs()
-    mp = {str(k): float(mp[k]) for k in mp.keys()}
-    wp = word_probs(model, states, mp)
+    if M.mprob_kind(model) == "monomers":
+        monos = prob["mprobs"]["positions"]  # position-specific: the values the harness set
+        wp = np.array([np.prod([monos[p_][ch] for p_, ch in enumerate(st)]) for st in states])
+        wp = wp / wp.sum()
+    else:
+        mp = lf.get_motif_probs()
+        mp = {str(k): float(mp[k]) for k in mp.keys()}
+        wp = word_probs(model, states, mp)
     bins = prob.get("bins", 1)
     bin_names = [f"bin{i}" for i in range(bins)] if bins > 1 else [None]
     if bins > 1:
@@ -292,8 +297,24 @@ def adversarial_Q(rng):
     """Q built by the harness from the published definitions with hostile parameters"""
     model = rng.choice(["HKY85", "TN93", "GTR", "GN", "ssGN", "F81"])
     states = list("TCAG")
-    style = rng.choice(["bounds", "equalfreq", "tinyfreq", "mixed"])
+    style = rng.choice(["bounds", "equalfreq", "tinyfreq", "mixed", "chain"])
     params = {}
+    if style == "chain":
+        # nearly defective: a one-way cycle/chain of substitutions, every other rate tiny (all within bounds)
+        model = "GN"
+        order = rng.sample("ACGT", 4)
+        big = {(order[i], order[(i + 1) % 4]) for i in range(3 if rng.random() < 0.7 else 4)}
+        tiny = rng.choice([1e-6, 1e-5, 1e-4, 1e-3])
+        # T>G is the reference (=1): scale so that the chain rates equal the reference
+        for p in M.rate_param_names("GN"):
+            f, t = p.split(">")
+            params[p] = 1.0 if (f, t) in big else tiny
+        if ("T", "G") not in big:
+            params = {p: v / tiny for p, v in params.items()}  # reference itself is 'tiny': rescale, stay in bounds
+            params = {p: min(1e6, max(1e-6, v)) for p, v in params.items()}
+        pi = M.dirichlet(rng, 4)
+        Q, wp = M.build_Q(model, states, params, dict(zip(states, pi)))
+        return model, style, params, pi, Q
     for p in M.rate_param_names(model):
         if style in ("bounds", "mixed"):
             params[p] = rng.choice([1e-6, 1e-4, 1.0, 1e4, 1e6, math.exp(rng.uniform(-13, 13))])
@@ -347,5 +368,5 @@ def run_case(case):
 
 
 def required(counters, tier):
-    need = ["Q-checked", "P-checked", "P(0)=I-checked", "semigroup-checked", "stationarity-checked", "bin-rates-checked", "adversarial-Q", "backend:Fast", "backend:Checked", "backend:Pade", "backend:Taylor", "backend:SemiSymmetric", "setting:either", "setting:pade"]
+    need = ["checked-exponentiator-raised", "Q-checked", "P-checked", "P(0)=I-checked", "semigroup-checked", "stationarity-checked", "bin-rates-checked", "adversarial-Q", "backend:Fast", "backend:Checked", "backend:Pade", "backend:Taylor", "backend:SemiSymmetric", "setting:either", "setting:pade"]
     return [n for n in need if not counters.get(n)]
